@@ -31,13 +31,14 @@ class Opaque:
         return f'<{self.desc}>'
 
 
-STR_METHODS = {'find', 'startswith', 'endswith', 'replace', 'lower', 'upper', 'strip', 'split', 'index', 'get'}
+STR_METHODS = {'find', 'startswith', 'endswith', 'replace', 'lower', 'upper', 'strip', 'split', 'index', 'get', 'items', 'keys', 'values', 'decode', 'encode', 'count', 'join', 'lstrip', 'rstrip', 'isdigit'}
 
 
 class Evaluator:
-    def __init__(self, fn, intrinsics=None, attr_ok=None):
+    def __init__(self, fn, intrinsics=None, attr_ok=None, model_types=()):
         self.fn = fn
         self.intrinsics = intrinsics or {}
+        self.model_types = tuple(model_types)
         self.trace = []
         self.steps = 0
 
@@ -84,6 +85,27 @@ class Evaluator:
             raise _Return(self.expr(st.value, env) if st.value is not None else None)
         if isinstance(st, ast.Pass):
             return
+        if isinstance(st, ast.For):
+            it = self.expr(st.iter, env)
+            if isinstance(it, Opaque):
+                raise AnalysisError(f'loop over an unmodelled value in `{text(st)[:50]}`')
+            broke = False
+            for v in list(it):
+                self.assign(st.target, v, env)
+                try:
+                    self.block(st.body, env)
+                except _Break:
+                    broke = True
+                    break
+                except _Continue:
+                    continue
+            if not broke:
+                self.block(st.orelse, env)
+            return
+        if isinstance(st, ast.Break):
+            raise _Break()
+        if isinstance(st, ast.Continue):
+            raise _Continue()
         if isinstance(st, ast.Try):
             # only the shape `try: X except E: Y` with intrinsic-controlled raising
             try:
@@ -145,6 +167,8 @@ class Evaluator:
                 return self.intrinsics[e.id]
             if e.id in ('None', 'True', 'False'):
                 return {'None': None, 'True': True, 'False': False}[e.id]
+            if e.id in ('ord', 'chr', 'str', 'int', 'len'):
+                return {'ord': ord, 'chr': chr, 'str': str, 'int': int, 'len': len}[e.id]
             raise AnalysisError(f'unknown name {e.id} in decision procedure')
         if isinstance(e, ast.Tuple):
             return tuple(self.expr(x, env) for x in e.elts)
@@ -152,6 +176,33 @@ class Evaluator:
             return [self.expr(x, env) for x in e.elts]
         if isinstance(e, ast.Dict):
             return {self.expr(k, env): self.expr(v, env) for k, v in zip(e.keys, e.values)}
+        if isinstance(e, ast.IfExp):
+            return self.expr(e.body if self.truth(self.expr(e.test, env)) else e.orelse, env)
+        if isinstance(e, (ast.GeneratorExp, ast.ListComp, ast.SetComp)):
+            out = []
+
+            def gen(i, env2):
+                if i == len(e.generators):
+                    out.append(self.expr(e.elt, env2))
+                    return
+                g = e.generators[i]
+                for v in list(self.expr(g.iter, env2)):
+                    env3 = dict(env2)
+                    self.assign(g.target, v, env3)
+                    if all(self.truth(self.expr(c, env3)) for c in g.ifs):
+                        gen(i + 1, env3)
+
+            gen(0, env)
+            return set(out) if isinstance(e, ast.SetComp) else out
+        if isinstance(e, ast.DictComp):
+            out = {}
+            g = e.generators[0]
+            for v in list(self.expr(g.iter, env)):
+                env3 = dict(env)
+                self.assign(g.target, v, env3)
+                if all(self.truth(self.expr(c, env3)) for c in g.ifs):
+                    out[self.expr(e.key, env3)] = self.expr(e.value, env3)
+            return out
         if isinstance(e, ast.JoinedStr):
             parts = []
             for v in e.values:
@@ -263,8 +314,11 @@ class Evaluator:
                 if f.id == 'isinstance':
                     tn = text(e.args[1])
                     return {'str': isinstance(args[0], str), 'bytes': isinstance(args[0], bytes)}.get(tn, False)
-                if f.id in ('str', 'bool', 'int'):
-                    return {'str': str, 'bool': bool, 'int': int}[f.id](*args)
+                if f.id in ('str', 'bool', 'int', 'ord', 'chr', 'tuple', 'list', 'set', 'dict', 'min', 'max', 'any', 'all', 'sorted', 'reversed', 'enumerate', 'zip', 'abs'):
+                    r = {'str': str, 'bool': bool, 'int': int, 'ord': ord, 'chr': chr, 'tuple': tuple, 'list': list, 'set': set, 'dict': dict, 'min': min, 'max': max, 'any': any, 'all': all, 'sorted': sorted, 'reversed': reversed, 'enumerate': enumerate, 'zip': zip, 'abs': abs}[f.id](*args, **kwargs)
+                    return list(r) if f.id in ('reversed', 'enumerate', 'zip') else r
+                if f.id == 'map' and len(args) == 2 and callable(args[0]):
+                    return [args[0](x) for x in args[1]]
                 if f.id in self.intrinsics:
                     return self.intrinsics[f.id](*args, **kwargs)
                 raise AnalysisError(f'call of unmodelled function {f.id}')
@@ -273,12 +327,23 @@ class Evaluator:
                 if d in self.intrinsics:
                     return self.intrinsics[d](*args, **kwargs)
                 recv = self.expr(f.value, env)
-                if isinstance(recv, (str, bytes, dict)) and f.attr in STR_METHODS:
-                    return getattr(recv, f.attr)(*args)
+                if isinstance(recv, (str, bytes, dict, list, tuple)) and f.attr in STR_METHODS:
+                    r = getattr(recv, f.attr)(*args)
+                    return list(r) if f.attr in ('items', 'keys', 'values') else r
                 if isinstance(recv, Record) and callable(getattr(recv, f.attr, None)):
+                    return getattr(recv, f.attr)(*args, **kwargs)
+                if self.model_types and isinstance(recv, self.model_types) and callable(getattr(recv, f.attr, None)):
                     return getattr(recv, f.attr)(*args, **kwargs)
                 raise AnalysisError(f'call of unmodelled method {d}')
         raise AnalysisError(f'unsupported expression in decision procedure: {text(e)[:60]}')
+
+
+class _Break(Exception):
+    pass
+
+
+class _Continue(Exception):
+    pass
 
 
 class _Raise(Exception):
